@@ -243,3 +243,42 @@ def site_events(repo: Repo, module: str, qual: str, site_pred: Callable[[ast.Cal
         hits = [(p, e) for p in paths for e in p.of('call') if e[4] is c0]
         out.append((c0, hits, paths) if all_paths else (c0, hits))
     return out
+
+
+def pinned_writers(repo: Repo, module: str, cls: str, attr: str) -> set[str]:
+    """Names of the methods of a class that assign `self.<attr>`; a method that is not part of the pinned vocabulary (a helper
+    extracted later) is replaced by the pinned methods that call it, transitively -- cutting a method into helpers does not
+    change who writes the attribute."""
+    from ..vocabulary import PINNED_FUNCTIONS
+    ci = repo.cls(module, cls)
+    direct: set[str] = set()
+    for fi in ci.methods.values():
+        for s in walk_no_nested(fi.node):
+            tg: list = []
+            if isinstance(s, ast.Assign):
+                tg = s.targets
+            elif isinstance(s, (ast.AugAssign, ast.AnnAssign)):
+                tg = [s.target]
+            for t in tg:
+                for x in ast.walk(t):
+                    if isinstance(x, ast.Attribute) and isinstance(x.value, ast.Name) and x.value.id == 'self' and x.attr == attr and \
+                            isinstance(x.ctx, ast.Store):
+                        direct.add(fi.name)
+    callers: dict[str, set[str]] = {}
+    for fi in ci.methods.values():
+        for c in walk_no_nested(fi.node):
+            if isinstance(c, ast.Call) and isinstance(c.func, ast.Attribute) and isinstance(c.func.value, ast.Name) and c.func.value.id == 'self':
+                callers.setdefault(c.func.attr, set()).add(fi.name)
+    out: set[str] = set()
+    todo = list(direct)
+    seen: set[str] = set()
+    while todo:
+        n = todo.pop()
+        if n in seen:
+            continue
+        seen.add(n)
+        if f'{module}:{cls}.{n}' in PINNED_FUNCTIONS or not callers.get(n):
+            out.add(n)
+        else:
+            todo.extend(callers[n])
+    return out
